@@ -21,6 +21,8 @@ R03.d  rebuild order agrees with the validator: the per-machine sequences
 R03.e  no function of these modules modifies the object of a mutable default
        argument (directly, through a local alias, or with ``+=``): the result
        of a call must not depend on earlier calls.
+R03.f  no for-loop variable of these modules is read after its loop (a statement
+       left one indentation level too shallow sees only the last element).
 """
 
 from __future__ import annotations
@@ -45,6 +47,7 @@ MANIFEST = {
         "accepts, zero durations included. Not decided: feasibility/optimality "
         "of the values the solver returns, bounds."
         " Also decided: no function of these modules accumulates into a mutable default argument."
+        " Also decided: no for-loop variable of these modules is read after its loop (statement left one indentation level too shallow)."
     ),
     "note": "OR-Tools' CamelCase and snake_case spellings are both recognised. The solver's own correctness is trusted.",
     "technique": "path automaton (rebind-before-use, must-call-before-Solve) + constraint-shape matching + sort-key vs validator-relation agreement",
@@ -76,6 +79,9 @@ def _rel(e):
 
 def run(ctx):
     chk, repo = ctx.chk, ctx.repo
+    from .common import check_loop_variable_leaks
+
+    check_loop_variable_leaks(ctx, "R03.f", ("job_shop_lib.constraint_programming",), "the CP-SAT solver")
     from .common import check_mutable_defaults
 
     check_mutable_defaults(ctx, "R03.e", ("job_shop_lib.constraint_programming",), "the CP-SAT solver")
@@ -572,8 +578,11 @@ def _no_overlap(ctx, F, solve, c):
                 g = n.value.generators[0]
                 if ast.unparse(g.iter).replace(" ", "").endswith("range(instance.num_machines)") and isinstance(n.value.elt, ast.List) and not n.value.elts if False else ast.unparse(g.iter).replace(" ", "").endswith("range(instance.num_machines)"):
                     created = True
-        if isinstance(n, ast.Call) and isinstance(n.func, ast.Attribute) and n.func.attr == "append" and isinstance(n.func.value, ast.Subscript):
-            if ast.unparse(n.func.value.value) == tname and ctx.norm.xtext(F, n.func.value.slice).endswith(".machine_id"):
+        recv = n.func.value if isinstance(n, ast.Call) and isinstance(n.func, ast.Attribute) else None
+        if isinstance(recv, ast.Name):
+            recv = ctx.norm.xexpr(F, recv, depth=1)  # `row = table[op.machine_id]; row.append(...)` (one step: keep the table's name)
+        if isinstance(n, ast.Call) and isinstance(n.func, ast.Attribute) and n.func.attr == "append" and isinstance(recv, ast.Subscript):
+            if ast.unparse(recv.value) == tname and ctx.norm.xtext(F, recv.slice).endswith(".machine_id"):
                 if _over_all_operations(ctx, F, n) and not any(isinstance(p, ast.If) for p in _if_parents(F, n)):
                     filled = True
     if not created:
